@@ -2,6 +2,7 @@ package main
 
 import (
 	"fmt"
+	"os"
 	"strings"
 	"sync/atomic"
 )
@@ -18,6 +19,7 @@ type gctx struct {
 	st      stats
 	noSub   bool // C08 domain: no subtypes
 	noIface bool
+	built   bool // some functions are assembled with BuildFunc
 }
 
 func (c *gctx) sub() string {
@@ -78,6 +80,21 @@ func (c *gctx) addFunc(in, out []Field, inForm, outForm int) int {
 	}
 	if len(out) == 0 {
 		d.OutForm = FPos
+	}
+	dupName := func(fs []Field) bool {
+		seen := map[string]bool{}
+		for _, f := range fs {
+			if f.Name != "" && seen[f.Name] {
+				return true
+			}
+			seen[f.Name] = true
+		}
+		return false
+	}
+	// NewValueSet needs distinct names (it builds a struct with one field per name)
+	if c.built && c.r.chance(35) && len(in) > 0 && len(out) > 0 && !dupName(in) && !dupName(out) {
+		// a function assembled with BuildFunc: struct in, struct out, error
+		d.Built, d.InForm, d.OutForm, d.Err = true, FStruct, FStruct, true
 	}
 	c.sc.Funcs = append(c.sc.Funcs, d)
 	return len(c.sc.Funcs) - 1
@@ -170,7 +187,16 @@ func (c *gctx) derive(f Field, depth int, convs *[]int) []Opt {
 	nin := []int{0, 1, 1, 1, 1, 2, 2, 3}[c.r.intn(8)]
 	in := c.fields(FStruct, nin)
 	out := []Field{f}
-	if c.r.chance(25) {
+	if c.r.chance(12) && !c.noSub {
+		// a second result of the same type (or name) that differs only by its subtype
+		g := f
+		g.Sub = map[string]string{"": "s", "s": "t", "t": "s"}[f.Sub]
+		if c.r.chance(50) {
+			out = []Field{g, f}
+		} else {
+			out = []Field{f, g}
+		}
+	} else if c.r.chance(25) {
 		out = append(out, c.fields(FStruct, 1)...)
 		if len(out) == 2 && ((out[1].Name != "" && out[1].Name == f.Name) || (out[1].Name == "" && f.Name == "" && out[1].Ty == f.Ty)) {
 			out = out[:1]
@@ -284,7 +310,7 @@ func genCallScenario(c *gctx, class int) {
 	if r.chance(35) && len(c.sc.Funcs) > 0 {
 		d := c.sc.Funcs[r.intn(len(c.sc.Funcs))]
 		d.Err = true
-		c.sc.Beh = append(c.sc.Beh, BehRow{Fid: d.ID, From: r.intn(3), Kind: 1, Err: 900 + r.intn(5)})
+		c.sc.Beh = append(c.sc.Beh, BehRow{Fid: d.ID, From: r.intn(3), Kind: 1, Err: 900 + r.intn(6)})
 	}
 	if r.chance(8) {
 		for _, d := range c.sc.Funcs {
@@ -318,6 +344,20 @@ func genCallScenario(c *gctx, class int) {
 	nops := 1
 	if r.chance(25) {
 		nops = 2 + r.intn(2)
+	}
+	if class == 1 && len(defaults) > 0 && len(opts) > 0 && r.chance(50) {
+		// two Funcs whose default slices share a backing array: the second has
+		// one more default; the first is called with an option for that very key
+		extra := opts[len(opts)-1]
+		if len(extra.Vals) > 0 && extra.Vals[0] != nil {
+			alt := extra
+			c.serial++
+			alt.Vals = []*Val{{Serial: c.serial, Ty: extra.Vals[0].Ty}}
+			d2 := append(append([]Opt(nil), defaults...), extra)
+			c.sc.Ops = append(c.sc.Ops, Op{Kind: "call", Target: ti, Defaults: defaults, Opts: append(append([]Opt(nil), opts[:len(opts)-1]...), alt)})
+			c.sc.Ops = append(c.sc.Ops, Op{Kind: "call", Target: ti, Defaults: d2, Opts: opts[:len(opts)-1], SharePrefix: 1})
+			return
+		}
 	}
 	for i := 0; i < nops; i++ {
 		c.sc.Ops = append(c.sc.Ops, Op{Kind: "call", Target: ti, Defaults: defaults, Opts: opts})
@@ -359,6 +399,20 @@ func genGenScenario(c *gctx) {
 // Convert scenario
 func genConvertScenario(c *gctx) {
 	r := c.r
+	if r.chance(10) {
+		// two different types with the same printed name, converted one after the other
+		for _, t := range []int{30, 31} {
+			src := c.cty()
+			fi := c.addFunc([]Field{{Ty: src}}, []Field{{Ty: t}}, FPos, FPos)
+			c.sc.Funcs[fi].Err, c.sc.Funcs[fi].Once = false, false
+			opts := []Opt{{Kind: "typed", Vals: []*Val{c.val(src)}}, {Kind: "conv", Fns: []int{fi}}}
+			if r.chance(50) {
+				opts = []Opt{{Kind: "typed", Vals: []*Val{c.val(t)}}}
+			}
+			c.sc.Ops = append(c.sc.Ops, Op{Kind: "convert", Ty: t, Opts: opts})
+		}
+		return
+	}
 	t := c.ty()
 	var convs []int
 	var opts []Opt
@@ -449,6 +503,22 @@ func genRedefineScenario(c *gctx, strict bool) {
 			d.Once = false
 		}
 	}
+	if !strict && r.chance(30) && len(convs) > 0 {
+		// one converter is not supplied directly but generated for a value that is in the graph
+		var key *vkeyT
+		for _, f := range tin {
+			if f.Name != "" {
+				key = &vkeyT{Kind: 2, Name: f.Name, Ty: f.Ty, Sub: f.Sub}
+				break
+			}
+		}
+		if key != nil {
+			gi := convs[len(convs)-1]
+			convs = convs[:len(convs)-1]
+			c.sc.Gens = append(c.sc.Gens, &GenDecl{ID: 1, Rows: []GenRow{{Key: *key, Res: 2, Fn: gi}}})
+			opts = append(opts, Opt{Kind: "gen", Gens: []int{len(c.sc.Gens) - 1}})
+		}
+	}
 	opts = append(opts, c.convOpts(convs)...)
 	if !r.chance(20) {
 		var subs []Flt
@@ -507,7 +577,11 @@ func genOnceScenario(c *gctx) {
 	c.sc.Ops = nil
 	n := 2 + r.intn(4)
 	for i := 0; i < n; i++ {
-		switch r.intn(4) {
+		k := r.intn(4)
+		if i == 0 && r.chance(40) {
+			k = 0 // plan before the first real execution
+		}
+		switch k {
 		case 0:
 			c.sc.Ops = append(c.sc.Ops, Op{Kind: "redefine", Target: base.Target, Defaults: base.Defaults, Opts: base.Opts})
 		default:
@@ -563,10 +637,70 @@ func optsText(opts []Opt) string {
 
 var wdIdx, wdLast int64
 
+func cloneScenario(sc *Scenario) *Scenario {
+	c := &Scenario{Gens: sc.Gens, Beh: sc.Beh}
+	for _, d := range sc.Funcs {
+		dd := *d
+		dd.fn, dd.raw, dd.ftype = nil, nil, 0
+		c.Funcs = append(c.Funcs, &dd)
+	}
+	c.Ops = append(c.Ops, sc.Ops...)
+	return c
+}
+
+// obsCore strips the tape from an observation term: "(mkOpObs OBS EVENTS TAPE)"
+func obsCore(t string) string {
+	i := strings.LastIndex(t, " [(")
+	j := strings.LastIndex(t, " [])")
+	if j > i {
+		i = j
+	}
+	if i < 0 {
+		return t
+	}
+	return t[:i]
+}
+
+// twin streams: the scenario plus the verdict of a second, independent run
+func twinStream(name string, checker string, mk func(c *gctx), twin func(sc *Scenario) (*Scenario, func(orig, tw []string) bool)) *streamDef {
+	return &streamDef{
+		name:    name,
+		header:  "From ArgMapper Require Import Base Graph GraphAlg Types Args Resolver CheckResolver Monitors Monitors2.\n",
+		typ:     "(scn * bool)",
+		checker: checker,
+		gen: func(r *rng, idx int, st stats) caseOut {
+			atomic.StoreInt64(&wdIdx, int64(idx))
+			c := &gctx{r: r, sc: &Scenario{}, nextFid: 1, serial: 10, st: st}
+			mk(c)
+			for i := range c.sc.Ops {
+				c.sc.Ops[i].OrdSeed = r.next() | 1
+			}
+			tw, cmp := twin(cloneScenario(c.sc))
+			seed := r.next()
+			obs, cats, _ := runScenario(c.sc, seed, &wdLast)
+			cores := append([]string(nil), lastCores...)
+			runScenario(tw, seed, &wdLast)
+			tcores := append([]string(nil), lastCores...)
+			atomic.StoreInt64(&wdLast, 0)
+			verdict := cmp(cores, tcores)
+			nexec := 0
+			for _, o := range obs {
+				nexec += strings.Count(o, "(EExec ")
+			}
+			for _, ct := range cats {
+				st.inc(name + ".outcome=" + ct)
+			}
+			st.inc(fmt.Sprintf("%s.twin_equal=%v", name, verdict))
+			text := scenarioText(c.sc)
+			return caseOut{Term: fmt.Sprintf("(%s, %s)", scenarioTerm(c.sc, obs), boolc(verdict)), Text: text, Hash: text, Trivial: nexec < 1, Category: strings.Join(cats, ",")}
+		},
+	}
+}
+
 func resolverStream(name string, mk func(c *gctx)) *streamDef {
 	return &streamDef{
 		name:    name,
-		header:  "From ArgMapper Require Import Base Graph GraphAlg Types Args Resolver CheckResolver Monitors.\n",
+		header:  "From ArgMapper Require Import Base Graph GraphAlg Types Args Resolver CheckResolver Monitors Monitors2.\n",
 		typ:     "scn",
 		checker: "check_" + name + "_all",
 		gen: func(r *rng, idx int, st stats) caseOut {
@@ -590,6 +724,17 @@ func resolverStream(name string, mk func(c *gctx)) *streamDef {
 	}
 }
 
+func eventsOf(core string) string {
+	i := strings.Index(core, "[(EExec")
+	if i < 0 {
+		i = strings.Index(core, "[(EGen")
+	}
+	if i < 0 {
+		return ""
+	}
+	return core[i:]
+}
+
 func min(a, b int) int {
 	if a < b {
 		return a
@@ -597,8 +742,116 @@ func min(a, b int) int {
 	return b
 }
 
+// C07 families
+func genC07(c *gctx, f2 bool) {
+	r := c.r
+	T := c.cty()
+	U := c.cty()
+	for U == T {
+		U = c.cty()
+	}
+	n := nameAlphabet[r.intn(len(nameAlphabet))]
+	ti := c.addFunc([]Field{{Name: n, Ty: U}}, c.fields(FStruct, r.intn(2)), FStruct, FStruct)
+	c.sc.Funcs[ti].Once = false
+	c.sc.Funcs[ti].Err = false
+	var convs []int
+	// the type-only converter T -> U (output type-only or named n)
+	out := Field{Ty: U}
+	if r.chance(30) {
+		out.Name = n
+	}
+	tc := c.addFunc([]Field{{Ty: T}}, []Field{out}, c.formFor([]Field{{Ty: T}}), c.formFor([]Field{out}))
+	c.sc.Funcs[tc].Once, c.sc.Funcs[tc].Err = false, r.chance(20)
+	convs = append(convs, tc)
+	if f2 {
+		nc := c.addFunc([]Field{{Name: n, Ty: T}}, []Field{out}, []int{FStruct, FPtr}[r.intn(2)], c.formFor([]Field{out}))
+		c.sc.Funcs[nc].Once, c.sc.Funcs[nc].Err = false, r.chance(20)
+		if c.sc.Funcs[nc].OutForm == c.sc.Funcs[tc].OutForm && c.sc.Funcs[nc].InForm == FStruct && c.sc.Funcs[tc].InForm == FStruct {
+			c.sc.Funcs[nc].InForm = FPtr
+		}
+		convs = append(convs, nc)
+	}
+	// competing named inputs of type T, one named n
+	var opts []Opt
+	k := 2 + r.intn(3)
+	names := []string{n}
+	for _, m := range nameAlphabet {
+		if m != n && len(names) < k {
+			names = append(names, m)
+		}
+	}
+	for _, m := range names {
+		opts = append(opts, Opt{Kind: "named", Name: c.casing(m), Vals: []*Val{c.val(T)}})
+	}
+	// distractors over types disjoint from {T, U}
+	var other []int
+	for _, t := range concreteTys {
+		if t != T && t != U {
+			other = append(other, t)
+		}
+	}
+	for i := r.intn(3); i > 0; i-- {
+		a, b := other[r.intn(len(other))], other[r.intn(len(other))]
+		if a != b {
+			convs = append(convs, c.addFunc([]Field{{Ty: a}}, []Field{{Ty: b}}, FPos, FPos))
+		}
+		opts = append(opts, Opt{Kind: "typed", Vals: []*Val{c.val(other[r.intn(len(other))])}})
+	}
+	shuffleOpts(r, opts)
+	// registration order of the converters varies
+	for i := len(convs) - 1; i > 0; i-- {
+		j := r.intn(i + 1)
+		convs[i], convs[j] = convs[j], convs[i]
+	}
+	opts = append(opts, c.convOpts(convs)...)
+	if r.chance(40) {
+		shuffleOpts(r, opts)
+	}
+	for i := 0; i < 3; i++ { // three order tapes per scenario
+		c.sc.Ops = append(c.sc.Ops, Op{Kind: "call", Target: ti, Opts: opts})
+	}
+}
+
 func init() {
 	startWatchdog(&wdIdx, &wdLast)
+	register(resolverStream("c07f1", func(c *gctx) { genC07(c, false) }))
+	register(resolverStream("c07f2", func(c *gctx) { genC07(c, true) }))
+	// C09 twin: the same history without the Redefine operations
+	register(twinStream("redeftwin", "run_twin CFull 9", func(c *gctx) {
+		if c.r.chance(50) {
+			genOnceScenario(c)
+		} else {
+			genRedefineScenario(c, false)
+			// keep calls and redefines only
+			var ops []Op
+			for _, o := range c.sc.Ops {
+				if o.Kind != "callredef" {
+					ops = append(ops, o)
+				}
+			}
+			c.sc.Ops = append(ops, ops[len(ops)-1])
+			last := &c.sc.Ops[len(c.sc.Ops)-1]
+			last.Kind = "call"
+		}
+	}, func(tw *Scenario) (*Scenario, func(a, b []string) bool) {
+		var kept []int
+		var ops []Op
+		for i, o := range tw.Ops {
+			if o.Kind == "call" {
+				kept = append(kept, i)
+				ops = append(ops, o)
+			}
+		}
+		tw.Ops = ops
+		return tw, func(orig, t []string) bool {
+			for j, i := range kept {
+				if j >= len(t) || orig[i] != t[j] {
+					return false
+				}
+			}
+			return true
+		}
+	}))
 	register(resolverStream("call", func(c *gctx) {
 		switch {
 		case c.r.chance(8):
@@ -608,9 +861,57 @@ func init() {
 		}
 	}))
 	register(resolverStream("exact", func(c *gctx) { genCallScenario(c, 1) }))
+	register(resolverStream("built", func(c *gctx) { c.built = true; genCallScenario(c, 0) }))
 	register(resolverStream("malformed", func(c *gctx) { genCallScenario(c, 2) }))
 	register(resolverStream("convert", genConvertScenario))
 	register(resolverStream("redefine", func(c *gctx) { genRedefineScenario(c, false) }))
 	register(resolverStream("redefstrict", func(c *gctx) { genRedefineScenario(c, true) }))
 	register(resolverStream("once", genOnceScenario))
+	// C10 twin: Call on a hand-written identity function
+	register(twinStream("converttwin", "run_twin CFull 0", genConvertScenario, func(tw *Scenario) (*Scenario, func(a, b []string) bool) {
+		var ops []Op
+		for _, op := range tw.Ops {
+			id := &FnDecl{ID: 7777, InForm: FPos, In: []Field{{Ty: op.Ty}}, OutForm: FPos, Out: []Field{{Ty: op.Ty}}, Ident: true}
+			tw.Funcs = append(tw.Funcs, id)
+			ops = append(ops, Op{Kind: "call", Target: len(tw.Funcs) - 1, Opts: op.Opts, OrdSeed: op.OrdSeed})
+		}
+		tw.Ops = ops
+		return tw, func(orig, t []string) bool {
+			for i := range orig {
+				if !convertTwinEq(orig[i], t[i]) {
+					if os.Getenv("VERIF_STACK") != "" {
+						fmt.Fprintf(os.Stderr, "TWIN DIFF\n A=%s\n B=%s\n", orig[i], t[i])
+					}
+					return false
+				}
+			}
+			return true
+		}
+	}))
+}
+
+// (mkOpObs (ObsConvert E V) EVENTS ..  vs  (mkOpObs (ObsCall E LEN [[v]]) EVENTS ..
+func convertTwinEq(a, b string) bool {
+	if strings.Contains(a, "ObsPanic") || strings.Contains(b, "ObsPanic") {
+		return false
+	}
+	ea := a[strings.Index(a, "ObsConvert ")+len("ObsConvert "):]
+	eb := b[strings.Index(b, "ObsCall ")+len("ObsCall "):]
+	if strings.HasPrefix(ea, "ObsOk (Some ") != strings.HasPrefix(eb, "ObsOk ") {
+		return false
+	}
+	if strings.HasPrefix(ea, "ObsOk (Some ") {
+		v := ea[len("ObsOk (Some "):strings.Index(ea, "))")]
+		if !strings.Contains(eb, "ObsOk 1 [["+v+"]])") {
+			return false
+		}
+	} else {
+		// same error class and identity
+		ca := strings.SplitN(ea, " None)", 2)[0]
+		if !strings.HasPrefix(eb, ca+" 0 [])") {
+			return false
+		}
+	}
+	// same executions of user functions
+	return eventsOf(a) == eventsOf(b)
 }
